@@ -558,7 +558,13 @@ func runC03(c *Ctx) {
 				if del(in) {
 					return false
 				}
-				if in == outerNext || isExit(in) {
+				if r, isRet := in.(*ssa.Return); isRet {
+					if errSuccess(r) {
+						ok = false
+					}
+					return false
+				}
+				if in == outerNext {
 					ok = false
 					return false
 				}
